@@ -7,6 +7,7 @@ import (
 	"sync"
 
 	"golang.org/x/tools/go/packages"
+	"golang.org/x/tools/go/ssa"
 	"golang.org/x/tools/go/types/typeutil"
 
 	"verifcheck/internal/core"
@@ -406,4 +407,27 @@ func paramByRefName(u *flow.Unit, refName string) types.Object {
 		}
 	}
 	return nil
+}
+
+// exemptViaOwners: f did not exist on the reference tree and every
+// reference-tree function that reaches it (through new helpers only) has the
+// named exemption "<owner> | <what>" in table: code moved out of those
+// functions keeps their exemptions.
+func exemptViaOwners(q *ssaq.Q, f *ssa.Function, table map[string]string, what string) (string, bool) {
+	if !ssaq.IsNew(f) {
+		return "", false
+	}
+	owners, ok := q.Attributed(f)
+	if !ok || len(owners) == 0 {
+		return "", false
+	}
+	why := ""
+	for _, on := range owners {
+		w, has := table[on+" | "+what]
+		if !has {
+			return "", false
+		}
+		why = w
+	}
+	return why, true
 }
